@@ -1029,6 +1029,8 @@ pid_t __wrap_fork(void) {
   }
   p->argv = K->next_spawn_argv;
   K->next_spawn_argv.clear();
+  p->env = K->next_spawn_env;
+  K->next_spawn_env.clear();
   K->procs.push_back(p);
   if (K->trace) K->trace("fork", p->pid, 0);
   return p->pid;
@@ -1146,6 +1148,8 @@ unsigned __wrap__dbus_spawn_async_with_babysitter(DBusBabysitter **sitter_p, con
   if (K) {
     K->next_spawn_argv.clear();
     for (int i = 0; argv && argv[i]; i++) K->next_spawn_argv.push_back(argv[i]);
+    K->next_spawn_env.clear();
+    for (int i = 0; env && env[i]; i++) K->next_spawn_env.push_back(env[i]);
   }
   return __real__dbus_spawn_async_with_babysitter(sitter_p, log_name, argv, env, flags, setup, user_data, error);
 }
